@@ -130,7 +130,7 @@ INVALID_LINES = [
 @st.composite
 def acl_case_st(draw, tier):
     platform = draw(st.sampled_from(["ios", "nxos"]))
-    pool = [draw(G.ace_st(platform, kmax=2, groups=True, members=False, noise=False)) for _ in range(2)]
+    pool = [draw(G.ace_st(platform, kmax=2, groups=True, members=False, noise=False, opaque=True)) for _ in range(2)]
     lines = []
     for _ in range(draw(st.integers(1, 10))):
         kind = draw(st.sampled_from(["ace", "ace", "ace", "rem", "ignorable", "invalid", "invalid", "blank", "overlimit"]))
